@@ -3,6 +3,8 @@ package sym
 import (
 	"fmt"
 	"go/types"
+	"sort"
+	"strings"
 
 	"golang.org/x/tools/go/ssa"
 )
@@ -70,6 +72,8 @@ func (in *Interp) encodeBlob(kind string, t types.Type, v Value) SymBytes {
 	b := in.tb.Var(name, SortStr)
 	in.nondets = append(in.nondets, nondetRec{name, b, "blob"})
 	in.codecs[name] = &codecEntry{kind, t, deepCopy(v)}
+	// a JSON text is never empty
+	in.assertPC(in.tb.Not(in.tb.Eq(b, in.tb.Str(""))))
 	return SymBytes{b}
 }
 
@@ -123,6 +127,17 @@ func (in *Interp) jsonUnmarshal(data Value, dst Value) Value {
 			*p = deepCopy(e.V)
 			return Iface{}
 		}
+		// struct encoded, different struct decoded: members are matched by their JSON names
+		if sv, ok := in.structValue(e.T, e.V); ok {
+			if dstT, ok := under(pt.Elem()).(*types.Struct); ok {
+				if srcT, ok := under(deref(e.T)).(*types.Struct); ok {
+					if out, ok := in.decodeStructByJSONName(srcT, sv, dstT); ok {
+						*p = out
+						return Iface{}
+					}
+				}
+			}
+		}
 		// a JSON value of one basic kind never decodes into a different basic kind
 		if e.T != nil {
 			_, b1 := under(e.T).(*types.Basic)
@@ -170,7 +185,15 @@ func (in *Interp) jsonMarshal(v Value, kind string) Value {
 			}
 		}
 		if flat {
-			key := fmt.Sprintf("jsonenc:%p:%d", m, m.ver)
+			// Go marshals map members sorted by name: the bytes are a function of the member SET
+			var ents []string
+			for _, e := range m.entries {
+				k, _ := in.valueKey(e.k, 0)
+				v, _ := in.valueKey(e.v, 0)
+				ents = append(ents, k+":"+v)
+			}
+			sort.Strings(ents)
+			key := "jsonenc:" + strings.Join(ents, ",")
 			if b, ok := in.memo[key]; ok {
 				return Tuple{b, Iface{}}
 			}
@@ -468,6 +491,20 @@ func (in *Interp) valueKey(v Value, depth int) (string, bool) {
 		return s + "]", true
 	case SymBytes:
 		return fmt.Sprintf("b%d", x.S.id), true
+	case *Map:
+		if x == nil {
+			return "nilmap", true
+		}
+		s := "m{"
+		for _, e := range x.entries {
+			k, ok1 := in.valueKey(e.k, depth+1)
+			v, ok2 := in.valueKey(e.v, depth+1)
+			if !ok1 || !ok2 {
+				return "", false
+			}
+			s += k + ":" + v + ","
+		}
+		return s + "}", true
 	}
 	return "", false
 }
@@ -511,6 +548,7 @@ func init() {
 			b := in.tb.Var(name, SortStr)
 			in.nondets = append(in.nondets, nondetRec{name, b, "blob"})
 			in.codecs[name] = &codecEntry{"mh", nil, Tuple{SymBytes{d}, code}}
+			in.assertPC(in.tb.Not(in.tb.Eq(b, in.tb.Str("")))) // a multihash has at least its two header bytes
 			// consistency with earlier decodes of foreign bytes: equal bytes decode to these components
 			for _, r := range in.decodes["mh"] {
 				in.assertPC(in.tb.Implies(in.tb.Eq(r.in, b), in.tb.And(r.ok, in.tb.Eq(r.out[0], d), in.tb.Eq(r.out[1], code))))
@@ -552,7 +590,11 @@ func init() {
 			return r, true
 		}
 		e.Stubs[mhp+"ValidCode"] = func(in *Interp, fn *ssa.Function, args []Value) (Value, bool) {
-			return in.noteUF(in.tb.UF("multihash.validCode", SortBool, args[0].(*Term))), true
+			c := args[0].(*Term)
+			if c.IsConst() && (c.U == 0x12 || c.U == 0x13) {
+				return in.tb.Bool(true), true // sha2-256, sha2-512 are in the multihash table
+			}
+			return in.noteUF(in.tb.UF("multihash.validCode", SortBool, c)), true
 		}
 	})
 }
@@ -575,6 +617,11 @@ func (in *Interp) b64Encode(dt *Term) *Term {
 	b := in.tb.Var(name, SortStr)
 	in.nondets = append(in.nondets, nondetRec{name, b, "blob"})
 	in.codecs[name] = &codecEntry{"b64", nil, SymBytes{dt}}
+	// base64url text contains no '.' and does not start with '{' (consequences of its alphabet that the code relies on);
+	// it is empty exactly when the encoded bytes are
+	in.assertPC(in.tb.Eq(in.tb.Eq(b, in.tb.Str("")), in.tb.Eq(dt, in.tb.Str(""))))
+	in.assertPC(in.tb.Not(in.tb.StrOp("str.contains", SortBool, b, in.tb.Str("."))))
+	in.assertPC(in.tb.Not(in.tb.StrOp("str.prefixof", SortBool, in.tb.Str("{"), b)))
 	for _, r := range in.decodes["b64"] {
 		in.assertPC(in.tb.Implies(in.tb.Eq(r.in, b), in.tb.And(r.ok, in.tb.Eq(r.out[0], dt))))
 	}
@@ -654,4 +701,58 @@ func init() {
 			return Float{args[0].(*Term)}, true
 		}
 	})
+}
+
+func jsonName(f *types.Var, tag string) (string, bool) {
+	name := f.Name()
+	if i := strings.Index(tag, `json:"`); i >= 0 {
+		rest := tag[i+6:]
+		if j := strings.IndexByte(rest, '"'); j >= 0 {
+			n := strings.Split(rest[:j], ",")[0]
+			if n == "-" {
+				return "", false
+			}
+			if n != "" {
+				name = n
+			}
+		}
+	}
+	return name, f.Exported()
+}
+
+func (in *Interp) structValue(t types.Type, v Value) (Struct, bool) {
+	if t == nil {
+		return nil, false
+	}
+	v = in.force(v)
+	if p, ok := v.(*Value); ok {
+		if p == nil {
+			return nil, false
+		}
+		v = in.force(*p)
+	}
+	s, ok := v.(Struct)
+	return s, ok
+}
+
+// decodeStructByJSONName fills a zero dst struct from the members of src that share a JSON name and a type.
+func (in *Interp) decodeStructByJSONName(srcT *types.Struct, src Struct, dstT *types.Struct) (Value, bool) {
+	out := in.zero(dstT).(Struct)
+	for i := 0; i < dstT.NumFields(); i++ {
+		dn, ok := jsonName(dstT.Field(i), dstT.Tag(i))
+		if !ok {
+			continue
+		}
+		for j := 0; j < srcT.NumFields(); j++ {
+			sn, ok := jsonName(srcT.Field(j), srcT.Tag(j))
+			if !ok || sn != dn {
+				continue
+			}
+			if !types.Identical(srcT.Field(j).Type(), dstT.Field(i).Type()) {
+				return nil, false
+			}
+			out[i] = deepCopy(src[j])
+		}
+	}
+	return out, true
 }
